@@ -61,7 +61,7 @@ CLAIMS = {
          "Correspondence + oracle: the full ledger is diffed around every step of the world families against the permitted set.",
          "§6 C07", "Lean 4 proof (frame + conservation by induction over ledger primitives) + differential correspondence on cw-multi-test"),
  "C13": ("Lean theorems: exact meaning of the route-shape check (the asks produced and never consumed later; accepted iff exactly one), empty and two-output routes rejected; every hop spends the router's whole balance of its offer asset and leaves none; "
-         "pass-through for any number of hops (C13W.route_passthrough, by induction over the hop list, cyclic routes included): under pairwise distinct pairs and an otherwise empty router the recipient receives exactly the router's quote for the same state, every route asset ends at zero in the router, nothing else reaches the recipient. "
+         "pass-through for any number of hops (C13W.route_passthrough, by induction over the hop list; C13X: cyclic routes, transaction level with the quote of the pre-transaction world, complete effect incl. recipients that are pools of the route; C13C: every router entry point runs the shape check): under pairwise distinct pairs and an otherwise empty router the recipient receives exactly the router's quote for the same state, every route asset ends at zero in the router, nothing else reaches the recipient. "
          "Correspondence + oracle: world family route (1-4 hops, both entry points) compares the recipient's gain with the router's own simulation and checks the router's balances are zero afterwards.",
          "§6 C13", "Lean 4 proof (route shape + per-hop pass-through) + differential correspondence on cw-multi-test"),
  "C17": ("Lean theorems: the registry invariant RegOK (keys sorted, records keyed by their own assets, record = pair self-description, distinct pairs) is preserved by creation, by decimals re-registration for any number of pairs, and by every other operation; "
@@ -78,19 +78,7 @@ CLAIMS = {
 # claimed in CLAIMS but proofs still being written
 PENDING = {}
 
-NOT_YET = {
- "C02_": "world-level model (N5) and swap settlement theorems not built yet; planned, see DESIGN §6 C02",
- "C03_": "history induction over the world model not built yet; planned, see DESIGN §6 C03",
- "C07_": "frame/conservation theorems over the world model not built yet; planned",
- "C11_": "router model not built yet; planned",
- "C13_": "router model not built yet; planned",
- "C14_": "authorisation theorems over the world/factory model not built yet; planned",
- "C16_": "registry model (N4) not built yet; planned",
- "C17_": "factory state machine model not built yet; planned",
- "C18_": "text model (N2) not built yet; planned",
- "C19_": "pagination model not built yet; planned",
- "C20_": "liveness from the inductive invariant not built yet; planned",
-}
+NOT_YET = {}
 
 def main():
     import importlib.util
